@@ -18,7 +18,7 @@ _TOKEN_RE = re.compile(r"""
   | (?P<dq>"[^"]*")
   | (?P<str>'(?:[^']|'')*')
   | (?P<num>\d+(?:\.\d+)?)
-  | (?P<qm>\?)
+  | (?P<qm>\?|[:@$][A-Za-z_][A-Za-z_0-9]*)
   | (?P<op><>|!=|<=|>=|==|=|<|>|\|\|)
   | (?P<punct>[(),;.*+\-/])
   | (?P<word>[A-Za-z_][A-Za-z_0-9]*)
@@ -33,7 +33,7 @@ KEYWORDS = {
     "FOREIGN", "DEFAULT", "END", "ROLLBACK", "OFFSET", "COUNT", "REPLACE",
     "DEFERRED", "IMMEDIATE", "EXCLUSIVE", "CONSTRAINT", "RENAME", "TO",
     "JOIN", "LEFT", "INNER", "OUTER", "CROSS", "AS", "GROUP", "HAVING", "USING",
-    "NATURAL", "RIGHT", "FULL",
+    "NATURAL", "RIGHT", "FULL", "VACUUM", "UNION", "ALL",
 }
 
 
@@ -105,7 +105,24 @@ class Stmt(object):
     @property
     def mutating(self):
         return self.kind in ("insert", "update", "delete", "create_table",
-                             "create_index", "drop", "alter")
+                             "create_index", "drop", "alter", "vacuum")
+
+    @property
+    def plain_rows(self):
+        """a SELECT that returns every row its WHERE matches, once each and as
+        stored: no DISTINCT, GROUP BY / HAVING, LIMIT, join or computed column"""
+        return self.kind == "select" and not self.distinct and self.limit is None and \
+            not self.extra.get("group_by") and not self.extra.get("having") and \
+            not self.extra.get("joins") and not self.extra.get("functions")
+
+    @property
+    def all_rows(self):
+        """like plain_rows, but DISTINCT is allowed (a set of values is read)"""
+        return self.kind == "select" and self.limit is None and \
+            not self.extra.get("group_by") and not self.extra.get("having") and \
+            not self.extra.get("joins") and not self.extra.get("functions") and \
+            not self.extra.get("union") and \
+            not self.extra.get("union")
 
     def normalized(self):
         """Canonical one-line rendering (used as construct key)."""
@@ -117,6 +134,8 @@ class Stmt(object):
                 s += " %s JOIN %s" % (jk.upper(), jt)
                 if on is not None:
                     s += " ON " + on.render()
+            for m in self.extra.get("union", []):
+                s += " UNION " + m.normalized()
             if self.extra.get("group_by"):
                 tail = " GROUP BY %s" % ",".join(self.extra["group_by"])
                 if self.extra.get("having"):
@@ -227,6 +246,7 @@ class _P(object):
         self.i = 0
         self.text = text
         self.nparams = 0
+        self.param_names = []   # per placeholder: None for '?', the name for ':name'
 
     def peek(self, k=0):
         if self.i + k < len(self.toks):
@@ -283,6 +303,7 @@ class _P(object):
             self.i += 1
             a = Atom("param", self.nparams)
             self.nparams += 1
+            self.param_names.append(t.text[1:] if len(t.text) > 1 else None)
             return a
         if t.kind == "num":
             self.i += 1
@@ -344,10 +365,14 @@ class _P(object):
             return Where("cmp", col=col, cmpop=op, value=val)
         if self.eat_kw("IS"):
             if self.eat_kw("NOT"):
-                self.expect_kw("NULL")
-                return Where("notnull", col=col)
-            self.expect_kw("NULL")
-            return Where("isnull", col=col)
+                if self.eat_kw("NULL"):
+                    return Where("notnull", col=col)
+                # col IS NOT <value>: null-safe inequality
+                return Where("cmp", col=col, cmpop="!=", value=self.atom())
+            if self.eat_kw("NULL"):
+                return Where("isnull", col=col)
+            # col IS <value>: null-safe equality
+            return Where("cmp", col=col, cmpop="=", value=self.atom())
         neg = False
         if self.eat_kw("NOT"):
             neg = True
@@ -370,6 +395,7 @@ class _P(object):
     def _qualify(self, table, col):
         """columns of the statement's primary table are unqualified; columns
         of joined tables keep the form table.col"""
+        table = getattr(self, "aliases", {}).get(table, table)
         if self.primary is None or table == self.primary:
             return col
         return "%s.%s" % (table, col)
@@ -401,14 +427,66 @@ class _P(object):
             j += 1
         return None
 
+    def _find_aliases(self):
+        """look ahead: FROM t [AS] a / JOIN t [AS] a of the select starting here"""
+        out = {}
+        depth = 0
+        j = self.i
+        while j < len(self.toks):
+            tk = self.toks[j]
+            if tk.kind == "punct" and tk.text == "(":
+                depth += 1
+            elif tk.kind == "punct" and tk.text == ")":
+                if depth == 0:
+                    break
+                depth -= 1
+            elif depth == 0 and tk.kind == "kw" and tk.text in ("FROM", "JOIN") and \
+                    j + 1 < len(self.toks) and self.toks[j + 1].kind == "ident":
+                t = self.toks[j + 1].text
+                k = j + 2
+                if k < len(self.toks) and self.toks[k].kind == "kw" and self.toks[k].text == "AS":
+                    k += 1
+                if k < len(self.toks) and self.toks[k].kind == "ident":
+                    out[self.toks[k].text] = t
+            j += 1
+        return out
+
+    def _table_alias(self):
+        """consume an optional [AS] alias after a table name"""
+        if self.eat_kw("AS"):
+            self.ident()
+        elif self.peek().kind == "ident":
+            self.i += 1
+
+    def _skip_call(self):
+        """consume ( ... ) of a function call in a select list"""
+        self.expect_punct("(")
+        depth = 0
+        while self.peek().kind != "eof":
+            tk = self.peek()
+            if tk.kind == "punct" and tk.text == "(":
+                depth += 1
+            elif tk.kind == "punct" and tk.text == ")":
+                if depth == 0:
+                    break
+                depth -= 1
+            elif tk.kind == "qm":
+                self.nparams += 1
+                self.param_names.append(tk.text[1:] if len(tk.text) > 1 else None)
+            self.i += 1
+        self.expect_punct(")")
+
     def select(self):
         self.expect_kw("SELECT")
         saved_primary = self.primary
+        saved_aliases = getattr(self, "aliases", {})
         self.primary = self._find_primary()
+        self.aliases = self._find_aliases()
         try:
             return self._select_body()
         finally:
             self.primary = saved_primary
+            self.aliases = saved_aliases
 
     def _select_body(self):
         distinct = bool(self.eat_kw("DISTINCT"))
@@ -424,7 +502,22 @@ class _P(object):
                     if not self.at_punct(")"):
                         self.ident()
                 self.expect_punct(")")
-                cols.append("COUNT()")
+                c = "COUNT()"
+                if self.eat_kw("AS"):
+                    extra["count_alias"] = self.ident()
+                cols.append(c)
+            elif self.peek().kind in ("ident", "kw") and self.peek(1).kind == "punct" \
+                    and self.peek(1).text == "(" and self.peek().text.upper() != "FROM":
+                # an aggregate / scalar function: the value is computed, not a
+                # stored column
+                fn = self.peek().text.upper()
+                self.i += 1
+                self._skip_call()
+                c = "%s()" % fn
+                extra.setdefault("functions", []).append(fn)
+                if self.eat_kw("AS"):
+                    c = self.ident()
+                cols.append(c)
             else:
                 c = self.qcol()
                 if self.eat_kw("AS"):
@@ -434,8 +527,7 @@ class _P(object):
                 break
         self.expect_kw("FROM")
         table = self.ident()
-        if self.eat_kw("AS"):
-            raise SqlUnparsed("table aliases are not modelled: %r" % self.text)
+        self._table_alias()
         joins = []
         while self.at_kw("JOIN", "LEFT", "INNER", "CROSS", "NATURAL", "RIGHT", "FULL") \
                 or self.at_punct(","):
@@ -451,6 +543,7 @@ class _P(object):
                 raise SqlUnparsed("join kind not modelled: %r" % self.text)
             self.expect_kw("JOIN")
             jt = self.ident()
+            self._table_alias()
             on = None
             if self.eat_kw("ON"):
                 on = self.where()
@@ -486,6 +579,7 @@ class _P(object):
                         break
                     elif tk.kind == "qm":
                         self.nparams += 1
+                        self.param_names.append(tk.text[1:] if len(tk.text) > 1 else None)
                     toks.append(tk.text)
                     self.i += 1
                 extra["having"] = " ".join(toks)
@@ -493,7 +587,7 @@ class _P(object):
         if self.eat_kw("ORDER"):
             self.expect_kw("BY")
             while True:
-                c = self.ident()
+                c = self.qcol()
                 d = self.eat_kw("ASC", "DESC") or "ASC"
                 order.append((c, d))
                 if not self.eat_punct(","):
@@ -501,9 +595,22 @@ class _P(object):
         limit = None
         if self.eat_kw("LIMIT"):
             limit = self.atom()
-        return Stmt("select", table=table, cols=cols, where=where,
-                    distinct=distinct, order_by=order, limit=limit,
-                    extra=extra)
+        st = Stmt("select", table=table, cols=cols, where=where,
+                  distinct=distinct, order_by=order, limit=limit,
+                  extra=extra)
+        if self.at_kw("UNION"):
+            # a UNION b [UNION c]: the members are kept on the first select
+            members = []
+            while self.eat_kw("UNION"):
+                if self.eat_kw("ALL"):
+                    st.extra["union_all"] = True
+                members.append(self.select())
+            flat = []
+            for m in members:
+                flat.append(m)
+                flat.extend(m.extra.pop("union", []))
+            st.extra["union"] = flat
+        return st
 
     def statement(self):
         t = self.peek()
@@ -582,6 +689,12 @@ class _P(object):
                 self.expect_punct(")")
             return Stmt("pragma", extra={"name": name.lower(),
                                          "value": (value or None)})
+        if t.text == "VACUUM":
+            # rewrites the whole database file
+            self.i += 1
+            while self.peek().kind != "eof" and not self.at_punct(";"):
+                self.i += 1
+            return Stmt("vacuum")
         if t.text == "BEGIN":
             self.i += 1
             self.eat_kw("DEFERRED", "IMMEDIATE", "EXCLUSIVE")
@@ -744,6 +857,7 @@ def parse_statement(text):
     if p.peek().kind != "eof":
         raise SqlUnparsed("trailing tokens %r in %r" % (p.peek(), text))
     st.nparams = p.nparams
+    st.param_names = list(p.param_names)
     st.text = " ".join(text.split())
     return st
 
@@ -777,6 +891,7 @@ def parse_script(text):
             raise SqlUnparsed("trailing tokens %r in script statement %r" %
                               (p.peek(), p.text))
         st.nparams = p.nparams
+        st.param_names = list(p.param_names)
         st.text = p.text
         out.append(st)
     return out
